@@ -232,6 +232,8 @@ class Action:
                     params[k] = IP.from_dict(v)
                 case "target_network":
                     params[k] = Network.from_dict(v)
+                    # refuse invalid network address or mask (raises netaddr.AddrFormatError)
+                    netaddr.IPNetwork(str(params[k]))
                 case "target_service":
                     params[k] = Service.from_dict(v)
                 case "data":
